@@ -17,6 +17,11 @@ Open Scope N_scope.
    buffer holds -- if it did, nothing of the old content would be left) *)
 Definition fill (buf data : bytes) : bytes := data ++ skipn (length data) buf.
 
+(* the piece of the buffer a sink is handed: `buf[..n]` with n = the length this read returned -- a structural fact of
+   the six loops regenerated from the source on every run (Generated.relay_sinks_take_read_prefix); if a loop handed
+   over anything else the model hands over the whole buffer, stale tail included, and C01_relay_exact no longer compiles *)
+Definition slice_len (d b' : bytes) : nat := if relay_sinks_take_read_prefix then length d else length b'.
+
 Inductive rd_ev := GotN (data : bytes) | GotEof | GotErr.   (* result of one read; GotN [] is Ok(0) *)
 Inductive wr_ev := WrOk | WrErr.                            (* result of handing the whole slice to the sink *)
 
@@ -35,7 +40,7 @@ Definition lp_iter (s : lp) (e : rd_ev * wr_ev) : lp :=
       else
         let b' := fill (lbuf s) d in
         match snd e with
-        | WrOk => {| lbuf := b'; lout := lout s ++ [firstn (length d) b']; lstop := false |}
+        | WrOk => {| lbuf := b'; lout := lout s ++ [firstn (slice_len d b') b']; lstop := false |}
         | WrErr => {| lbuf := b'; lout := lout s; lstop := true |}
         end
   end.
